@@ -53,6 +53,11 @@ func genC10(t *rapid.T) c10Case {
 	c.Yields = yieldList(rapid.SliceOfN(rapid.SampledFrom([]uint8{0, 0, 1, 1, 2, 3, 5}), 0, 24).Draw(t, "yields"))
 	if c.Stack.Kind != "queue" {
 		c.Ghosts = rapid.SampledFrom([]int{0, 0, 1, 2, 3}).Draw(t, "ghosts")
+		if rapid.IntRange(0, 29).Draw(t, "ghostCrowd") == 0 {
+			// a limiter that has been saturated for a long time: hundreds or thousands of callers came, waited and gave up
+			// before the scenario starts
+			c.Ghosts = rapid.SampledFrom([]int{100, 255, 256, 1023, 1024, 1025, 1500, 2100}).Draw(t, "ghostCrowdN")
+		}
 	}
 	return c
 }
